@@ -19,7 +19,7 @@ func init() {
 		"rejections {post-read plugin, rate limit, pre-call plugin, auth token missing/wrong/right}, request compression and reply sizes on both sides of the threshold; " +
 		"per request: responses counted and matched (stamp: response type, seq, path, method, serialize type; result computed from its own arguments), handler invocations counted, " +
 		"connection state observed; every request is replayed on the Lean server model; non-trivial = request other than a plain successful call; distinct = distinct input line"
-	register("c04", "C04 focus (response count, stamping, dispatch styles, pooled argument objects): "+rule, func(o *Out, r *rand.Rand) { runSrv(o, r, "c04") })
+	register("c04", "C04 focus (response count, stamping, dispatch styles, pooled argument and reply objects through reflected methods and registered functions): "+rule, func(o *Out, r *rand.Rand) { runSrv(o, r, "c04") })
 	register("c07", "C07 focus (failure kinds, error texts, server keeps serving; plus a real client.Client issuing sequential and pipelined failing calls whose errors are kept and judged after later traffic on the same connection; plus a router-handler panic whose reporting (HandleServiceError) is held while other connections are served): "+rule, func(o *Out, r *rand.Rand) { runSrv(o, r, "c07") })
 	register("c15", "C15 focus (rejections at every stage, flags, tokens; native ingress + gateway + JSON-RPC ingress): "+rule, func(o *Out, r *rand.Rand) { runSrv(o, r, "c15"); runC15Ingress(o, r) })
 }
@@ -470,10 +470,18 @@ func srvPooled(o *Out, rig *srvRig, r *rand.Rand, id *int, pfx string) {
 			for i := 0; i < per; i++ {
 				rid := base + c*per + i
 				a, b := rid%97, rid%89
-				q := rawReq{id: rid, seq: uint64(rid), path: "Svc", method: "Pooled", ser: protocol.JSON,
+				// reflected service method and registered function take turns, connection by connection
+				// and within a connection
+				path := "Svc"
+				if (c+i/5)%2 == 1 {
+					path = "Fn"
+				}
+				q := rawReq{id: rid, seq: uint64(rid), path: path, method: "Pooled", ser: protocol.JSON,
 					args: &PArgs{ID: rid, A: a, B: b, Check: a*31 + b}, meta: map[string]string{"rid": fmt.Sprint(rid)}}
+				failing := false
 				if i%11 == 5 {
-					q.args.(*PArgs).Mode = "err" // a failing handler: the reply is still encoded and returned to the pool
+					q.args.(*PArgs).Mode = "err" // a failing handler: the reply object is still returned to the pool
+					failing = true
 				}
 				unencodable := false
 				if i%13 == 7 && !q.oneway {
@@ -482,7 +490,9 @@ func srvPooled(o *Out, rig *srvRig, r *rand.Rand, id *int, pfx string) {
 				}
 				if i%7 == 3 && !unencodable {
 					q.oneway = true // one-way requests use (and must return) pooled objects too
-				} else if unencodable {
+				} else if unencodable || failing {
+					// answered with a service error (what the payload of an error response holds differs
+					// between the dispatch styles and is nobody's concern)
 					wantErr[rid] = true
 					n++
 				} else {
@@ -503,7 +513,7 @@ func srvPooled(o *Out, rig *srvRig, r *rand.Rand, id *int, pfx string) {
 				var rp PReply
 				if wantErr[int(m.Seq())] {
 					if m.MessageStatusType() != protocol.Error {
-						ch <- res{fmt.Sprintf("request %d (unencodable reply) was not answered with an error", m.Seq())}
+						ch <- res{fmt.Sprintf("request %d (failing handler or unencodable reply) was not answered with an error", m.Seq())}
 						return
 					}
 					continue
